@@ -273,7 +273,8 @@ fn stringify(p: &P) -> (Want, String) {
         P::I32(v) => (Want::Exact(v.to_string()), "integer".into()),
         P::I64(v) => (Want::Exact(v.to_string()), "integer64".into()),
         P::F64(v) if v.is_finite() => (Want::Number(*v), "double".into()),
-        P::F64(_) => (Want::Open(None), "double-nonfinite".into()),
+        // non-finite: whatever the spelling (Rust's inf / NaN or Conjure's Infinity / NaN), it must parse back to the same number
+        P::F64(v) => (Want::Number(*v), "double-nonfinite".into()),
         P::Safe(v) => (Want::Open(Some((**v).to_string())), "safelong".into()),
         P::Time(t) => (Want::Open(json_form(t)), "datetime".into()),
         P::Token(t) => (Want::Open(Some(t.as_str().to_string())), "bearertoken".into()),
@@ -425,8 +426,15 @@ fn check_encoded(p: &mut Probe, route: &str, e: &DynError, id: Option<Uuid>, se:
                     "-Infinity" => Some(f64::NEG_INFINITY),
                     t => t.parse::<f64>().ok(),
                 };
-                if back != Some(*d) {
+                let same = match back {
+                    Some(b) => b == *d || (b.is_nan() && d.is_nan()),
+                    None => false,
+                };
+                if !same {
                     bad("does-not-parse-back", p);
+                }
+                if !d.is_finite() {
+                    p.rep.observed_only(&format!("param-double-nonfinite:text={}", g));
                 }
             }
             (Want::Number(_), None) => bad("missing", p),
